@@ -20,6 +20,7 @@ import (
 	"github.com/goblimey/go-ntrip/rtcm/handler"
 	"github.com/goblimey/go-ntrip/vhsched"
 	"pgregory.net/rapid"
+	"vh/appsup"
 	"vh/drive"
 	"vh/gen"
 	"vh/stats"
@@ -75,6 +76,7 @@ type scriptReader struct {
 	idleEach  int
 	burstAt   int
 	burstLen  int
+	prog      *appsup.Progress
 	dataSince bool // a data-bearing read has happened since the last injected EOF
 }
 
@@ -117,6 +119,9 @@ func (r *scriptReader) Read(p []byte) (int, error) {
 	copy(p, r.data[r.pos:r.pos+n])
 	r.pos += n
 	r.dataSince = true
+	if r.prog != nil && n > 0 {
+		r.prog.Tick() // only data taken counts as progress, not retries that yield nothing
+	}
 	if r.eofWith && r.pos >= len(r.data) {
 		return n, io.EOF
 	}
@@ -160,6 +165,7 @@ func check(c Case, o *stats.Obs) error {
 	vhsched.Configure(uint64(c.YieldSeed)+1, c.YieldMode, 40, uint64(dens))
 	defer vhsched.Configure(1, 0, 0, 1)
 
+	prog := &appsup.Progress{}
 	chans := make([]chan handler.Message, len(c.Consumers))
 	recv := make([][]got, len(c.Consumers))
 	stop := make(chan struct{})
@@ -176,6 +182,7 @@ func check(c Case, o *stats.Obs) error {
 			take := func(m handler.Message) {
 				recv[i] = append(recv[i], got{m.MessageType, m.RawData})
 				n++
+				prog.Tick()
 			}
 			for {
 				if cs.Mode == 1 && cs.K > 0 && n%cs.K == 0 {
@@ -202,7 +209,7 @@ func check(c Case, o *stats.Obs) error {
 			}
 		}(i, cs)
 	}
-	rd := &scriptReader{data: input, chunks: c.Chunks, pauseEach: c.PauseEach, pauseKind: c.PauseKind, eofWith: c.EOFWith}
+	rd := &scriptReader{prog: prog, data: input, chunks: c.Chunks, pauseEach: c.PauseEach, pauseKind: c.PauseKind, eofWith: c.EOFWith}
 	cfg := &jsonconfig.Config{}
 	rd.idleEach = c.IdleEach
 	rd.burstAt, rd.burstLen = c.IdleBurstAt, c.IdleBurstLen
@@ -230,14 +237,15 @@ func check(c Case, o *stats.Obs) error {
 	br := bufio.NewReaderSize(rd, bs)
 	core := appcore.New(cfg, chans)
 	ret := make(chan int, 1)
-	go func() { ret <- core.HandleMessagesUntilEOF(drive.StartTime, br) }()
+	returned := make(chan struct{})
+	go func() { ret <- core.HandleMessagesUntilEOF(drive.StartTime, br); close(returned) }()
 	var rc int
-	select {
-	case rc = <-ret:
-	case <-time.After(90 * time.Second):
+	if appsup.AwaitProgress(returned, prog, 90*time.Second) {
+		rc = <-ret
+	} else {
 		close(stop)
 		o.Key = "no-return"
-		return fmt.Errorf("HandleMessagesUntilEOF did not return within 30 s for a %d-byte stream (%d expected messages); goroutines:\n%s", len(input), len(ref.Msgs), leaked())
+		return fmt.Errorf("HandleMessagesUntilEOF neither returned nor read input nor delivered a message for 90 s (%d-byte stream, %d expected messages); goroutines:\n%s", len(input), len(ref.Msgs), leaked())
 	}
 	close(stop)
 	wg.Wait()
